@@ -51,4 +51,21 @@ theorem covers_of_equations (o : Op) (st : Stripe) (hmode : o.mode = .none)
     injection hr with hr
     omega
 
+theorem refSrc_transpose (o : Op) (h : o.mode = .transpose) (Y j : Int) :
+    refSrc o Y j = (if Y * o.s + j * o.d - o.top < 0 ∨ Y * o.s + j * o.d - o.top ≥ o.H * o.up then Src.pad
+      else if (Y * o.s + j * o.d - o.top) % o.up = 0 then Src.row (o.off + (Y * o.s + j * o.d - o.top) / o.up) else Src.pad) := by
+  unfold refSrc upRow
+  rw [h]
+  simp only
+  split
+  · rfl
+  · by_cases hc : (Y * o.s + j * o.d - o.top) % o.up = 0 <;> simp [hc]
+
+theorem refSrc_nearest (o : Op) (h : o.mode = .nearest) (Y j : Int) :
+    refSrc o Y j = (if Y * o.s + j * o.d - o.top < 0 ∨ Y * o.s + j * o.d - o.top ≥ o.H * o.up then Src.pad
+      else Src.row (o.off + (Y * o.s + j * o.d - o.top) / o.up)) := by
+  unfold refSrc upRow
+  rw [h]
+
+
 end VelaVerif.Receptive
